@@ -729,6 +729,80 @@ def oracle_sequence(rng, ctx=None, n=10):
     return fails
 
 
+def oracle_state(rng, ctx=None, n=8):
+    """Dimension 8: merge results kept alive across later merges (no shared output buffer), results must not alias
+    the operands or each other, getters of a merged droplet must not change it, arrays passed to constructors
+    and setters stay unchanged and unaliased."""
+    fails = []
+    alive = []      # (droplet, record at creation, description)
+    for i in range(n):
+        cls_name = ["SphericalDroplet", "DiffuseDroplet"][i % 2] if i < 4 else rng.choice(["SphericalDroplet", "DiffuseDroplet"])
+        d = [3, 3, 2, 2][i] if i < 4 else rng.choice([1, 2, 3])      # the same record type several times in a row
+        A, B = _pair(rng, d)
+        A, B = (A[0] or 1.0, A[1], A[2]), (B[0] or 2.0, B[1], B[2])
+        inp = {"class": cls_name, "dim": d, "r1": A[0], "p1": A[1], "w1": A[2], "r2": B[0], "p2": B[1], "w2": B[2]}
+        x, y = _make(cls_name, d, *A), _make(cls_name, d, *B)
+        bx, by = x.data.tobytes(), y.data.tobytes()
+        m = x.merge(y)
+        mi = x.copy()
+        mi.merge(y, inplace=True)
+        alive.append((m, _rec(m), {**inp, "path": "out of place"}))
+        alive.append((mi, _rec(mi), {**inp, "path": "in place"}))
+        if ctx is not None:
+            ctx.count("results_kept_alive", f"{cls_name} dim {d}")
+            ctx.case(["state", i, cls_name, d, A, B])
+        # the result must not share memory with the operands or with an earlier result
+        fields = lambda dr: [np.asarray(dr.data[f]) for f in dr.data.dtype.names]
+        if any(np.shares_memory(a, b) for a in fields(m) for b in fields(x) + fields(y)):
+            fails.append({"what": "the out-of-place merge result shares memory with an operand", **inp})
+        for (o, _, desc) in alive[:-2]:
+            if type(o) is type(m) and len(o.position) == d and any(np.shares_memory(a, b) for a in fields(m) for b in fields(o)):
+                fails.append({"what": "two merge results share memory", **inp, "earlier": desc})
+                break
+        # getters of the merged droplet: called twice, the record must not change
+        b0 = m.data.tobytes()
+        for g in ("volume", "surface_area", "radius", "position", "bbox", "interface_curvature", "data_bounds", "dim", "_args"):
+            try:
+                getattr(m, g)
+                getattr(m, g)
+            except Exception as e:
+                fails.append({"what": f"getter {g} of a merged droplet raised {type(e).__name__}: {e}", **inp})
+            if m.data.tobytes() != b0:
+                fails.append({"what": f"the getter {g} changes the merged droplet's record", **inp, "getter": g})
+                b0 = m.data.tobytes()
+        # modifying the result must not reach the operands
+        m2 = x.merge(y)
+        m2.radius = 123.0
+        m2.position = np.array(B[1]) + 7.0
+        if x.data.tobytes() != bx or y.data.tobytes() != by:
+            fails.append({"what": "modifying an out-of-place merge result changes an operand", **inp})
+        # every result created so far still holds the value it had when it was created
+        for (o, rec0, desc) in alive:
+            if not _same_rec(_rec(o), rec0, 0.0, 0.0):
+                fails.append({"what": "a merge result kept alive changed when later merges were performed", **desc,
+                              "value_at_creation": rec0, "value_now": _rec(o), "later_merge": inp})
+                break
+        # arrays passed to the constructor / setter: unchanged, not aliased
+        pa = np.array(A[1], dtype=float)
+        pb = pa.copy()
+        z = _make(cls_name, d, A[0], pa, A[2]) if False else _classes()[cls_name](pa, A[0], *( [A[2]] if cls_name == "DiffuseDroplet" else []))
+        bz = z.data.tobytes()
+        if not np.array_equal(pa, pb):
+            fails.append({"what": "the constructor modified its position argument", **inp})
+        pa += 1.0
+        if z.data.tobytes() != bz:
+            fails.append({"what": "the droplet aliases the position array passed to the constructor", **inp})
+        pn = pb + 0.5
+        z.position = pn
+        bz = z.data.tobytes()
+        pn += 2.0
+        if z.data.tobytes() != bz:
+            fails.append({"what": "the droplet aliases the array assigned through the position setter", **inp})
+        if len(fails) > 20:
+            break
+    return fails
+
+
 def _sample_goals_retry(ctx, name, req, goals, unfold, tries=3):
     """vlib.sample_goals, repeated when coqc died without any output (the signature of the kernel's OOM killer on
     the shared machine: a real Coq error always prints a message).  Nothing is retried when Coq reported anything."""
@@ -825,6 +899,7 @@ def check(ctx: vlib.Ctx) -> int:
     fails += oracle_provenance(rng, ctx.scale(1, 6), ctx)
     fails += oracle_audit(rng, ctx, thorough=not ctx.quick)
     fails += oracle_sequence(rng, ctx, n=ctx.scale(10, 60))
+    fails += oracle_state(rng, ctx, n=ctx.scale(8, 40))
     try:
         sus = probe_suspected()
     except Exception as e:  # reported, never judged
